@@ -129,7 +129,7 @@ def verify_lemma(l, timeout_ms=30000, jobs=None, defer=False):
         it = Interp(ctx, ex, None)
         env = {}
         for vn, vt in l.variables.items():
-            ty = parse_type(vt)
+            ty = vt if vt.startswith("arr[") else parse_type(vt)
             v = it.fresh_param(vn, ty)
             env[vn] = v
         mod = loader.load_module("jellyfysh.base.time")
